@@ -476,3 +476,24 @@ def _compiled_pattern(model, func, defs, name, raw=False):
         if isinstance(v, ast.Call) and dotted(v.func) == 're.compile' and v.args and const_str(v.args[0]) is not None:
             return const_str(v.args[0])
     return None
+
+
+def check_param_defaults(run, rule, f, params=None, why=''):
+    """a parameter that the function re-binds to a constant is a defaulted parameter: the re-binding may only happen where the caller passed None (`if p is None: p = <default>`).
+    Anywhere else it overrides what the caller asked for."""
+    from .boolflow import must_atoms
+    import ast as _ast
+    g = cfg_of(f)
+    n = 0
+    for node in g.nodes:
+        if node.kind != 'stmt' or not isinstance(node.ast, _ast.Assign):
+            continue
+        for t in node.ast.targets:
+            if isinstance(t, _ast.Name) and t.id in f.params[1:] and (params is None or t.id in params) and isinstance(node.ast.value, _ast.Constant):
+                n += 1
+                atoms = must_atoms(g, node, f.node, params=f.params)
+                ok = any(l == t.id and op in ('Is', 'Eq') and r == 'None' for (l, op, r) in atoms)
+                run.inst(rule, f, 'parameter %s of %s is defaulted only where the caller passed None' % (t.id, f.name), ok,
+                         '' if ok else ('%s re-binds its parameter `%s` to %s on a path where the caller may have passed a value: %s' % (f.qualname, t.id, _ast.unparse(node.ast.value), why or
+                                        'what the caller asked for is silently replaced by the default')), node=node.ast, obligation=True)
+    return n
